@@ -433,10 +433,10 @@ inductive OptPair (β : Type) where
 def OptPair.fromPair {β : Type} (c : β × β) (both : Bool) : OptPair β :=
   if both then .both c.1 c.2 else .single c.1
 
-/-- `if rng.gen::<f64>() <= self.pc`: the crossover decision for the uniform draw `u ∈ [0,1)`. -/
-def crossedBy {F : Type} [LE F] [DecidableLE F] (u pc : F) : Bool := decide (u ≤ pc)
+/-- `if rng.gen::<f64>() < self.pc`: the crossover decision for the uniform draw `u ∈ [0,1)`. -/
+def crossedBy {F : Type} [LT F] [DecidableLT F] (u pc : F) : Bool := decide (u < pc)
 
-/-- One `recombine` call: the uniform draw `u`; crossover happens iff `u <= pc` (`crossed`);
+/-- One `recombine` call: the uniform draw `u`; crossover happens iff `u < pc` (`crossed`);
 a panicking crossover helper is `none`. -/
 def recombine {β : Type} (crossed : Bool) (children : Option (β × β)) (insertBoth : Bool) : Option (OptPair β) :=
   if crossed then children.map (OptPair.fromPair · insertBoth) else some .none
